@@ -1,3 +1,348 @@
-/- Property theorems for C08 (stub: not built yet). -/
+/-
+C08  Tuning selects, exposes and refits the candidate with the best CV score.
+Property theorems about SkVerif/Model/Tune.lean (model of sktime/forecasting/model_selection/_tune.py).
+Only theorems + non-vacuity examples here; helper lemmas live in SkVerif/Lemmas/Tune.lean.
+
+All theorems are universally quantified over candidate lists / grids, score functions (`ev`, the
+per-fold scores evaluate() returns for a parameter set, NaN allowed), metric directions, base forecasters
+(any `Machine`: any state type, any fit, any operations) and call sequences.
+
+Three clauses of the property do NOT hold for the code as it stands (known findings, see findings/C08.md);
+the model keeps the code's behaviour, each in ONE definition, the full statement is kept in a comment,
+the provable part is named `…_partial`, and the negation is proved at a concrete witness:
+  * `rankAscending`            (`ascending=~greater_is_better`)   → `best_in_declared_direction_partial`,
+                                                                     `best_is_max_for_score_fails`
+  * `cutoffChecksRefit`        (`cutoff` ignores `refit`)          → `no_refit_raises_NotFitted_partial`,
+                                                                     `no_refit_cutoff_does_not_raise`
+  * `tunerDefaultUpdateParams` (`update_params=False` by default)  → `refit_delegation_bisim_partial`,
+                                                                     `refit_delegation_default_update_fails`
+-/
+import SkVerif.Lemmas.Tune
 namespace SkVerif.C08
+open SkVerif SkVerif.Tune SkVerif.Lem.Tune
+
+/-! ### Candidates: grid search evaluates every combination -/
+
+/-- the items of a grid dict as (name, listed values) -/
+def items (d : GridDict) : List (String × List Val) := d.map (fun kv => (kv.1, valsOf kv.2))
+
+/-- A parameter set is a candidate of the grid search iff, for one of the grid's dicts, it assigns to
+every name of that dict (in sorted-name order) one of the values listed for it. -/
+theorem grid_enumerates_every_combination (g : List GridDict) (p : Params) :
+    p ∈ gridCandidates g ↔ ∃ d ∈ g, Picks p (sortItems (items d)) := by
+  simp only [gridCandidates, List.mem_flatMap, mem_product, items]
+
+/-- sorting the items of a dict loses and invents nothing -/
+theorem grid_dict_items_kept (d : GridDict) : (sortItems (items d)).Perm (items d) := sortItems_perm _
+
+/-- the number of candidates is the sum over the dicts of the product of the numbers of listed values -/
+theorem grid_candidate_count (g : List GridDict) :
+    (gridCandidates g).length = (g.map (fun d => prodLen (sortItems (items d)))).sum := by
+  simp only [gridCandidates, List.length_flatMap, product_length, items]
+
+/-- … and no combination of one dict is produced twice (values listed without repetition) -/
+theorem grid_each_combination_once (d : GridDict) (h : ∀ kv ∈ d, (valsOf kv.2).Nodup) :
+    (gridCandidates [d]).Nodup := by
+  simp only [gridCandidates, List.flatMap_cons, List.flatMap_nil, List.append_nil]
+  apply product_nodup
+  intro it hit
+  have hmem : it ∈ items d := (sortItems_perm _).mem_iff.mp hit
+  simp only [items, List.mem_map] at hmem
+  obtain ⟨kv, hkv, rfl⟩ := hmem
+  exact h kv hkv
+
+/-- a grid with an empty value list or a non-sequence value is rejected (ValueError), any other grid is
+searched over exactly `gridCandidates` (`_check_param_grid` is library code emulated by the harness:
+modelled, not verified) -/
+theorem grid_validation (g : List GridDict) :
+    candidatesOf (.grid g) =
+      if g.any (fun d => d.any (fun kv => badVals kv.2))
+      then .error .value else .ok (gridCandidates g) := by
+  simp only [candidatesOf, checkParamGrid]
+  split <;> rfl
+
+example : gridCandidates [[("b", .seq ["1", "2"]), ("a", .seq ["x", "y"])], []] =
+    [[("a", "x"), ("b", "1")], [("a", "x"), ("b", "2")], [("a", "y"), ("b", "1")], [("a", "y"), ("b", "2")], []] := by
+  decide
+
+/-! ### Every candidate is evaluated, on the same temporal splits -/
+
+/-- Every evaluate() call the search makes receives the tuner's own `cv` and the series given to `fit`
+— hence the same folds `cv.split(y)` (a function of the splitter and the series length, C01) — and a
+candidate of the list; when the search succeeds the calls are exactly the candidates, in order, once each. -/
+theorem same_splits_for_all_candidates (cv : CvSpec) (n : Int) (ev : Params → EvalOut) (cands : List Params) :
+    (∀ c ∈ evalCalls cv n ev cands, foldsOf c.1 c.2.1 = foldsOf cv n ∧ c.2.2 ∈ cands) ∧
+    (∀ gib r, search cands ev gib = .ok r → (evalCalls cv n ev cands).map (·.2.2) = cands) := by
+  constructor
+  · intro c hc
+    obtain ⟨h1, h2, h3⟩ := evalCalls_args cv n ev cands c hc
+    rw [h1, h2]; exact ⟨rfl, h3⟩
+  · intro gib r h
+    obtain ⟨outs, _, he, _⟩ := searchDir_spec h
+    rw [evalCalls_of_ok cv n he]
+    simp [Function.comp_def]
+
+/-- Each row of `cv_results_` is an independent evaluate() run of its candidate: row `i` carries candidate
+`i`'s parameters and the mean (pandas `mean`, NaN folds skipped) of the scores evaluate() gives for them. -/
+theorem cv_row_eq_independent_evaluate {cands : List Params} {ev : Params → EvalOut} {gib : Bool}
+    {r : SearchResult} (h : search cands ev gib = .ok r) :
+    r.rows.length = cands.length ∧
+    ∀ (i : Nat) (p : Params), cands[i]? = some p →
+      ∃ s row, ev p = .ok s ∧ r.rows[i]? = some row ∧ row.params = p ∧ row.mean = colMean s := by
+  obtain ⟨outs, _, he, _, hrows, _⟩ := searchDir_spec h
+  have hlen := evalAll_ok_length he
+  constructor
+  · rw [hrows]
+    exact mkRows_length (by simp [hlen]) (by simp [rank2_length, hlen])
+  · intro i p hp
+    obtain ⟨s, hs, hout⟩ := evalAll_ok_get he i p hp
+    have hm : (outs.map colMean)[i]? = some (colMean s) := by simp [hout]
+    have hr : (rank2 (rankAscending gib) (outs.map colMean))[i]? =
+        some ((colMean s).map (rank2Of (rankAscending gib) (outs.map colMean))) := by
+      rw [rank2_getElem?, hm]; rfl
+    exact ⟨s, _, hs, by rw [hrows]; exact mkRows_getElem? hp hm hr, rfl, rfl⟩
+
+/-- with no NaN fold the row's score is the plain arithmetic mean of the fold scores -/
+theorem row_mean_is_arithmetic_mean (xs : List Rat) (hne : xs ≠ []) :
+    colMean (xs.map some) = some (ratSum xs / (xs.length : Rat)) := by
+  have hfin : finite (xs.map some) = xs := by
+    simp [finite, List.filterMap_map]
+  unfold colMean
+  simp only [hfin]
+  cases xs with
+  | nil => exact absurd rfl hne
+  | cons a t => simp
+
+example : colMean [some 1, none, some 2] = some (3 / 2) := by decide +kernel
+
+/-! ### Selection -/
+
+/-- Ranking ascending and taking `argmin` selects a candidate whose mean score is finite and the LOWEST
+finite mean; ranking descending selects the HIGHEST (any candidates, any scores). -/
+theorem selection_follows_ranking_direction {cands : List Params} {ev : Params → EvalOut} {asc : Bool}
+    {r : SearchResult} (h : searchDir cands ev asc = .ok r) :
+    ∃ v, r.bestScore = some v ∧
+      ∀ row ∈ r.rows, ∀ w, row.mean = some w → if asc then v ≤ w else w ≤ v := by
+  obtain ⟨v, h1, h2, _⟩ := searchDir_select h
+  exact ⟨v, h1, h2⟩
+
+/-
+FULL STATEMENT (property clause "best in the direction declared by the metric"):
+  theorem best_in_declared_direction (h : search cands ev gib = .ok r) :
+      ∃ v, r.bestScore = some v ∧ ∀ row ∈ r.rows, ∀ w, row.mean = some w → if gib then w ≤ v else v ≤ w
+NOT provable for the code as it is: `rankAscending true = true` (`~True = -2` is truthy), see
+`rank_direction_ignores_metric` and the witness `best_is_max_for_score_fails`.  It follows from
+`selection_follows_ranking_direction` as soon as `rankAscending gib = !gib`.  Missing: the case `gib = true`.
+-/
+/-- For a loss (`greater_is_better = False`) the reported best score is the lowest finite mean CV score. -/
+theorem best_in_declared_direction_partial {cands : List Params} {ev : Params → EvalOut} {gib : Bool}
+    {r : SearchResult} (hloss : gib = false) (h : search cands ev gib = .ok r) :
+    ∃ v, r.bestScore = some v ∧
+      ∀ row ∈ r.rows, ∀ w, row.mean = some w → if gib then w ≤ v else v ≤ w := by
+  subst hloss
+  obtain ⟨v, h1, h2⟩ := selection_follows_ranking_direction (asc := rankAscending false) h
+  exact ⟨v, h1, by simpa [rankAscending, pyInvert, truthy] using h2⟩
+
+/-- as coded, the ranking direction does not depend on the metric: `~b` is truthy for both booleans -/
+theorem rank_direction_ignores_metric (gib : Bool) : rankAscending gib = true := by
+  cases gib <;> rfl
+
+/-- … so for EVERY metric the tuner reports the lowest finite mean score -/
+theorem best_is_lowest_as_coded {cands : List Params} {ev : Params → EvalOut} {gib : Bool}
+    {r : SearchResult} (h : search cands ev gib = .ok r) :
+    ∃ v, r.bestScore = some v ∧ ∀ row ∈ r.rows, ∀ w, row.mean = some w → v ≤ w := by
+  unfold search at h
+  rw [rank_direction_ignores_metric] at h
+  obtain ⟨v, h1, h2⟩ := selection_follows_ranking_direction h
+  exact ⟨v, h1, by simpa using h2⟩
+
+/-- the witness of DESIGN §5 C08: scorer −MAE (`greater_is_better = True`), candidates scoring
+−1.5, −11, 0 -/
+def witnessCands : List Params := [[("strategy", "last")], [("strategy", "mean")], [("strategy", "drift")]]
+def witnessEv : Params → EvalOut := fun p =>
+  if p = [("strategy", "last")] then .ok [some (-3 / 2)]
+  else if p = [("strategy", "mean")] then .ok [some (-11)]
+  else .ok [some 0]
+
+/-- NEGATION of the full statement at the witness: with a greater-is-better metric the tuner reports the
+candidate scoring −11 although another candidate scores 0. -/
+theorem best_is_max_for_score_fails :
+    ∃ r, search witnessCands witnessEv true = .ok r ∧ r.bestIndex = 1 ∧ r.bestScore = some (-11) ∧
+      r.bestParams = [("strategy", "mean")] ∧
+      ¬ (∀ row ∈ r.rows, ∀ w, row.mean = some w → w ≤ (-11 : Rat)) := by
+  refine ⟨⟨[⟨[("strategy", "last")], some (-3 / 2), some 4⟩, ⟨[("strategy", "mean")], some (-11), some 2⟩,
+            ⟨[("strategy", "drift")], some 0, some 6⟩], 1, some (-11), [("strategy", "mean")]⟩,
+          by decide +kernel, rfl, rfl, rfl, ?_⟩
+  intro hall
+  have := hall ⟨[("strategy", "drift")], some 0, some 6⟩ (by simp) 0 rfl
+  exact absurd this (by decide +kernel)
+
+/-- Ties: the reported candidate is the FIRST one attaining the selected score — no earlier row has the
+same mean (pandas `rank` method "average" gives tied candidates the same rank, `argmin` takes the first). -/
+theorem ties_first {cands : List Params} {ev : Params → EvalOut} {gib : Bool} {r : SearchResult}
+    (h : search cands ev gib = .ok r) :
+    ∀ (j : Nat) (row : Row), j < r.bestIndex → r.rows[j]? = some row → row.mean ≠ r.bestScore := by
+  obtain ⟨v, h1, _, h3⟩ := searchDir_select h
+  intro j row hj hrow
+  rw [h1]
+  exact h3 j row hj hrow
+
+/-- `best_index_`, `best_params_` and `best_score_` belong to one and the same candidate / row. -/
+theorem best_params_index_score_consistent {cands : List Params} {ev : Params → EvalOut} {gib : Bool}
+    {r : SearchResult} (h : search cands ev gib = .ok r) :
+    r.bestIndex < cands.length ∧ cands[r.bestIndex]? = some r.bestParams ∧
+    ∃ row, r.rows[r.bestIndex]? = some row ∧ row.params = r.bestParams ∧ row.mean = r.bestScore ∧
+      ∃ s, ev r.bestParams = .ok s ∧ r.bestScore = colMean s := by
+  obtain ⟨outs, rk, he, _, hrows, harg, hscore, hparams⟩ := searchDir_spec h
+  have hlen := evalAll_ok_length he
+  obtain ⟨hget, _, _⟩ := argminFirst_spec harg
+  have hlt : r.bestIndex < cands.length := by
+    have : r.bestIndex < (rank2 (rankAscending gib) (outs.map colMean)).length := by
+      by_contra hc
+      rw [List.getElem?_eq_none (by omega)] at hget
+      cases hget
+    simpa [rank2_length, hlen] using this
+  have hc : cands[r.bestIndex]? = some r.bestParams := by
+    rw [hparams, List.getElem?_eq_getElem hlt]; rfl
+  obtain ⟨_, hrow⟩ := cv_row_eq_independent_evaluate h
+  obtain ⟨s, row, hs, hr, hp, hm⟩ := hrow r.bestIndex r.bestParams hc
+  obtain ⟨s', hs', hout⟩ := evalAll_ok_get he r.bestIndex r.bestParams hc
+  have hss : s' = s := by rw [hs] at hs'; cases hs'; rfl
+  have hbs : r.bestScore = colMean s := by
+    rw [hscore]; simp [hout, hss]
+  exact ⟨hlt, hc, row, hr, hp, by rw [hm, hbs], s, hs, hbs⟩
+
+example : (search witnessCands witnessEv false).toOption.map (fun r => (r.bestIndex, r.bestParams)) =
+    some (1, [("strategy", "mean")]) := by decide +kernel
+
+/-! ### Refit and delegation -/
+
+/-- What a successful `fit` establishes: the search result is stored, the tuner is fitted, and
+`best_forecaster_` is a fresh clone carrying `best_params_`, fitted on the whole `(y, X, fh)` given to
+`fit` iff `refit` (otherwise left unfitted). -/
+theorem fit_refits_best_on_all_data {S Op V A C Y : Type} {m : Machine S Op V A} {cfg : Config C}
+    {ev : C → Y → Params → EvalOut} {st st' : TState S} {y : Y} {a : A}
+    (h : fitTuner m cfg ev st y a = (st', .ok ())) :
+    ∃ cands r, candidatesOf cfg.source = .ok cands ∧ search cands (ev cfg.cv y) cfg.gib = .ok r ∧
+      st'.result = some r ∧ st'.isFitted = true ∧
+      (cfg.refit = true → ∃ s, m.fit (m.init r.bestParams) a = .ok s ∧ st'.best = some s) ∧
+      (cfg.refit = false → st'.best = some (m.init r.bestParams)) :=
+  fitTuner_ok_spec h
+
+/-
+FULL STATEMENT (property clause "predict, update and cutoff of the tuner equal those of a forecaster
+constructed directly with the best parameters"): as below WITHOUT the hypothesis `hexp`.
+NOT provable for the code as it is: the tuner's `update`, `update_predict`, `update_predict_single` default
+to `update_params=False`, every forecaster's to `True`, so the same call text means different calls
+(`tunerDefaultUpdateParams`); witness `refit_delegation_default_update_fails`.  Missing: calls that leave
+`update_params` to its default.
+-/
+/-- Bisimulation: after `fit` with `refit=True`, for EVERY later sequence of calls (predict, update,
+update_predict(_single), cutoff, … in any order and number) the tuner answers exactly what a forecaster
+constructed directly with `best_params_` and fitted on the same whole `(y, X, fh)` answers — value for
+value, exception for exception (`update` answering `self` on both sides).
+`hexp`: `update_params` is passed explicitly.  `hwb`: the base forecaster obeys C04 (a guarded method of an
+unfitted forecaster raises NotFittedError and changes nothing). -/
+theorem refit_delegation_bisim_partial {S Op V A C Y : Type} {m : Machine S Op V A} {cfg : Config C}
+    {ev : C → Y → Params → EvalOut} {st st' : TState S} {y : Y} {a : A}
+    (h : fitTuner m cfg ev st y a = (st', .ok ())) (hrefit : cfg.refit = true) :
+    ∃ r s, st'.result = some r ∧ m.fit (m.init r.bestParams) a = .ok s ∧
+      ∀ calls : List (Call Op),
+        (∀ c ∈ calls, c.op = c.direct) →
+        (∀ c ∈ calls, c.named = true → ∀ s, m.fitted s = false → m.step s c.op = (s, .error .notFitted)) →
+        runTuner m cfg st' calls = runMachine m s calls := by
+  obtain ⟨_, r, _, _, hres, hfit, href, _⟩ := fitTuner_ok_spec h
+  obtain ⟨s, hs, hbest⟩ := href hrefit
+  refine ⟨r, s, hres, hs, ?_⟩
+  intro calls hexp hwb
+  have hst : st' = ⟨true, some s, some r⟩ := by
+    cases st' with
+    | mk f b res => simp only at hres hfit hbest; subst hres hfit hbest; rfl
+  rw [hst]
+  exact runTuner_eq_runMachine m cfg hrefit (some r) calls hexp hwb s
+
+/-- a tiny forecaster for the witnesses: state = number of observations (0 = unfitted);
+op 0 = cutoff (never guarded), 1 = predict, 2 = update(update_params=False), 3 = update(update_params=True) -/
+def demo : Machine Nat Nat Nat Unit where
+  init _ := 0
+  fit _ _ := .ok 100
+  fitted s := s != 0
+  step s op :=
+    if op == 0 then (s, .ok s)
+    else if s == 0 then (s, .error .notFitted)
+    else if op == 1 then (s, .ok (s + 1))
+    else if op == 2 then (s + 1, .ok 0)
+    else (s + 1000, .ok 0)
+
+def demoCfg (refit : Bool) : Config Unit := ⟨.sampled [[("a", "1")]], (), false, refit⟩
+def demoEv : Unit → Unit → Params → EvalOut := fun _ _ _ => .ok [some 1]
+def demoFitted (refit : Bool) : TState Nat := (fitTuner demo (demoCfg refit) demoEv TState.initial () ()).1
+
+/-- outputs as plain numbers, for `decide`: error = 0, self = 1, value v = v + 2 -/
+def code : Except Err (TVal Nat) → Nat
+  | .error _ => 0
+  | .ok .self => 1
+  | .ok (.val v) => v + 2
+
+/-- NEGATION of the full statement at a witness: `update(y)` with default arguments followed by
+`predict` gives different forecasts on the tuner and on the directly constructed forecaster. -/
+theorem refit_delegation_default_update_fails :
+    (fitTuner demo (demoCfg true) demoEv TState.initial () ()).2 = .ok () ∧
+    (runTuner demo (demoCfg true) (demoFitted true)
+        [Call.update (fun up => if up then 3 else 2) none, Call.method 1]).map code ≠
+    (runMachine demo 100 [Call.update (fun up => if up then 3 else 2) none, Call.method 1]).map code := by
+  constructor
+  · decide +kernel
+  · decide +kernel
+
+example : (runTuner demo (demoCfg true) (demoFitted true)
+      [Call.update (fun up => if up then 3 else 2) (some true), Call.method 1, Call.cutoff 0]).map code =
+    (runMachine demo 100 [Call.update (fun up => if up then 3 else 2) (some true), Call.method 1, Call.cutoff 0]).map code := by
+  decide +kernel
+
+/-
+FULL STATEMENT (property clause "without refit those methods [predict, update, cutoff] raise
+NotFittedError"): as below for EVERY call of the tuner class, `cutoff` included.
+NOT provable for the code as it is: `cutoff` calls `check_is_fitted()` without a method name, which does not
+consult `refit` (`cutoffChecksRefit`); witness `no_refit_cutoff_does_not_raise`.  Missing: `cutoff`.
+-/
+/-- After `fit` with `refit=False` every call guarded by `check_is_fitted("<method>")` — predict, update,
+update_predict, update_predict_single, compute_pred_int, transform, inverse_transform, get_fitted_params,
+score — raises NotFittedError and changes nothing, whatever the base forecaster is. -/
+theorem no_refit_raises_NotFitted_partial {S Op V A C Y : Type} {m : Machine S Op V A} {cfg : Config C}
+    {ev : C → Y → Params → EvalOut} {st st' : TState S} {y : Y} {a : A}
+    (h : fitTuner m cfg ev st y a = (st', .ok ())) (hrefit : cfg.refit = false)
+    (c : Call Op) (hnamed : c.named = true) :
+    stepTuner m cfg st' c = (st', .error .notFitted) := by
+  obtain ⟨_, r, _, _, _, hfit, _, hbest⟩ := fitTuner_ok_spec h
+  have hb := hbest hrefit
+  unfold stepTuner
+  simp [hfit, hb, hrefit, hnamed]
+
+/-- NEGATION of the full statement at a witness: with `refit=False`, `cutoff` answers the unfitted best
+forecaster's cutoff (None) instead of raising. -/
+theorem no_refit_cutoff_does_not_raise :
+    (fitTuner demo (demoCfg false) demoEv TState.initial () ()).2 = .ok () ∧
+    code (stepTuner demo (demoCfg false) (demoFitted false) (Call.cutoff 0)).2 ≠ code (.error .notFitted) := by
+  constructor
+  · decide +kernel
+  · decide +kernel
+
+example : code (stepTuner demo (demoCfg false) (demoFitted false) (Call.method 1)).2 = code (.error .notFitted) := by
+  decide +kernel
+
+/-- Before any successful `fit` every call on the tuner — `cutoff` included — raises NotFittedError. -/
+theorem unfitted_tuner_raises_NotFitted {S Op V A C : Type} (m : Machine S Op V A) (cfg : Config C)
+    (st : TState S) (hst : st.isFitted = false) (c : Call Op) :
+    stepTuner m cfg st c = (st, .error .notFitted) := by
+  unfold stepTuner
+  simp [hst]
+
+/-- A `fit` that raises (malformed grid, a failing candidate, an all-NaN score column, a failing refit)
+never marks the tuner as fitted: a fresh tuner stays unfitted. -/
+theorem failed_fit_leaves_unfitted {S Op V A C Y : Type} {m : Machine S Op V A} {cfg : Config C}
+    {ev : C → Y → Params → EvalOut} {st' : TState S} {y : Y} {a : A} {e : Err}
+    (h : fitTuner m cfg ev TState.initial y a = (st', .error e)) : st'.isFitted = false := by
+  rw [fitTuner_error_isFitted h]; rfl
+
 end SkVerif.C08
